@@ -16,13 +16,16 @@ LEVEL_TEXT = ('Lean 4 theorems about the model of propagate_fft, for all fields,
               'with or without scratch (centred FFT = unitary dft2 with alpha = 1/S for both parities by the NumPy contracts; reported '
               'wavelength makes alpha = 1/S; dft2 of the padded grid = sum of per-field dft2 with offsets); the result with a sufficient '
               'scratch of any size/content equals the result without; a buffer of exactly fft_shape is accepted, smaller ones, shapes with '
-              'shape·oversample > fft_shape and wavefronts in which ANY field carries tilt are refused. Scratch slice regions, _has_tilt, '
-              '_dft_alpha and the _fft_shape wiring are regenerated from propagate.py; the rest is a hand model with differential correspondence.')
-LEVEL_NOTE = ('Partial: np.fft.fft2/fftshift/ifftshift and np.round/np.min enter through their documented contracts (not verified); '
-              'util.pad is a hand model; scratch_shape for a list of wavelengths (np.max) is oracle-only; anisotropic dx·du is excluded by '
-              'hypothesis (known finding KF-C09-fft-anisotropic-wavelength). Trusted: Lean kernel, py2lean subset semantics, generator coverage.')
+              'shape > fft_shape/oversample (float comparison, proved equivalent to shape·oversample > fft_shape) and wavefronts in which ANY field '
+              'carries tilt are refused; scratch_shape is the grid at max(wavelength) and suffices for every smaller wavelength; metadata carried. '
+              'Regenerated from propagate.py/util.py: scratch slice regions, the _has_tilt fold, _dft_alpha, the _fft_shape call site and reported '
+              'wavelengths, both shape branches and guards, the scratch guard, the metadata hand-over, scratch_shape\'s call, the pad index block.')
+LEVEL_NOTE = ('Partial: np.fft.fft2/fftshift/ifftshift and np.round/np.min/np.max enter through their documented contracts (not verified; the '
+              'monotonicity of the rounding is a hypothesis of scratch_shape_monotone); oversample is an integer in the model and theorems — float '
+              'oversample is exercised by the oracle only (known finding KF-C09-float-oversample-explicit-shape); anisotropic dx·du is excluded by '
+              'hypothesis (KF-C09-fft-anisotropic-wavelength). Trusted: Lean kernel, py2lean subset semantics, generator coverage.')
 TECHNIQUE = 'Lean 4 proof (finite-sum reindexing, omega) over hand model with differential correspondence at Float'
-GEN = ['Extent', 'FieldIdx', 'FftScratch', 'PropagateMeta']
+GEN = ['Extent', 'FieldIdx', 'FftScratch', 'PropagateMeta', 'Util', 'Window']
 OPS = ['C02', 'C09']
 RULE = ('cases: pupils 1..6 x 1..6 (even/odd/non-square, off-centre, segmented) no larger than the grid; FFT grids 2..12 of both '
         'parities chosen through du (1/alpha within +-0.35 of the target, incl. non-integer); oversample 1..4; shape None/int/pair '
@@ -33,16 +36,17 @@ RULE = ('cases: pupils 1..6 x 1..6 (even/odd/non-square, off-centre, segmented) 
         ' Extremes stream: every length scaled by 1e-9..1e3, 1/alpha within 1e-9..3e-4 of an integer, per-axis output pitches differing by 1e-5..3e-3 relative, grids up to 48 in search/thorough (oracle only above 16).')
 TRUSTED = ['np.fft.fft2(norm="ortho") = unitary DFT with origin at index 0; np.fft.fftshift/ifftshift = rotations by +-floor(n/2); '
            'np.round = round-half-even; lentil.field.insert as modelled by insertArr (C06)']
-UNPROVEN = ['scratch_shape(wavelength=list) is sufficient for every listed wavelength (np.max; monotonicity of round(1/alpha) in wavelength): oracle only',
+UNPROVEN = ['float (non-integer) oversample: outside the model; explicit shapes then end in TypeError (known finding)',
             'anisotropic dx*du (known finding): a single reported wavelength cannot describe two per-axis grids']
-ASSUMPTIONS = ['pupil (wavefront.shape) no larger than the FFT grid; isotropic dx*du for the FFT = DFT clause; oversample >= 1']
+ASSUMPTIONS = ['pupil (wavefront.shape) no larger than the FFT grid; isotropic dx*du for the FFT = DFT clause; integer oversample >= 1 in model and '
+               'theorems (float oversample: oracle only, shape=None works, explicit shapes are an open known finding)']
 
 WL, Z = P.WL, P.Z
 
 def _even_round(x):
     return int(np.round(x))
 
-def _case(rng, tier, k, out, scale=1.0, near=None, smax=None, kmax=6):
+def _case(rng, tier, k, out, scale=1.0, near=None, smax=None, kmax=6, float_os=False):
     """one case appended to `out`. `scale` multiplies every length (nothing observable but the reported wavelength, which
     scales along, may change); near='int': 1/alpha within 1e-9 .. 3e-4 of an integer; near='axis': per-axis output pitches that
     differ by a relative 1e-5 .. 3e-3 only"""
@@ -103,6 +107,11 @@ def _case(rng, tier, k, out, scale=1.0, near=None, smax=None, kmax=6):
                     'wtilt': bool(tilt is not None and tilt_on == 'all' and rng.integers(0, 2))})
         if scale != 1.0: c['scale'] = scale
         if near: c['near'] = near
+        if float_os:
+            # the documented type of `oversample` is float: non-integral factors, and integral factors of float type
+            f = float(rng.choice([1.5, 2.5, 2.0, 1.0]))
+            c['du'] = [d * f / os_ for d in c['du']]; c['os'] = f; c['float_os'] = True; c['nomodel'] = True
+            if c['shape'] is not None and rng.integers(0, 2): c['shape'] = None
         if S > 16: c['nomodel'] = True
         out.append(c)
 
@@ -115,7 +124,8 @@ def generate(rng, tier):
     # extremes stream: tiny/huge physical scales, near-integer 1/alpha, near-equal per-axis pitches, larger grids
     for k in range({'quick': 10, 'thorough': 200, 'search': 240}[tier]):
         t = k % 5
-        if t == 0: _case(rng, tier, k, out, scale=float(rng.choice(SCALES)))
+        if t == 0 and k % 2: _case(rng, tier, k, out, float_os=True)
+        elif t == 0: _case(rng, tier, k, out, scale=float(rng.choice(SCALES)))
         elif t == 1: _case(rng, tier, k, out, near='int', scale=float(rng.choice([1.0, 1e-6])))
         elif t == 2: _case(rng, tier, k, out, near='axis', scale=float(rng.choice([1.0, 1e-3, 1e-6])))
         elif t == 3: _case(rng, tier, k, out, near='int', smax=12)
@@ -195,8 +205,12 @@ def impl(c):
     try:
         o = lentil.propagate_fft(w, pixelscale=du, shape=shape, oversample=c['os'], scratch=scr)
     except Exception as e:
-        return {'in': inp, 'exc': type(e).__name__, 'msg': str(e)[:200]}
-    res = {'in': inp, 'out': P._cx(o.field), 'wavelength': float(o.wavelength), 'focal_length': float(o.focal_length),
+        return {'in': inp, 'exc': type(e).__name__, 'msg': str(e)[:200], 'stage': 'propagate_fft'}
+    try:
+        fld = o.field
+    except Exception as e:
+        return {'in': inp, 'exc': type(e).__name__, 'msg': str(e)[:200], 'stage': 'Wavefront.field', 'out_shape': [float(x) for x in o.shape]}
+    res = {'in': inp, 'out': P._cx(fld), 'wavelength': float(o.wavelength), 'focal_length': float(o.focal_length),
            'pixelscale': [float(x) for x in o.pixelscale], 'ptype': str(o.ptype), 'shape': [int(x) for x in o.shape],
            'grid': [int(x) for x in o.data[0].data.shape], 'nfields': len(o.data)}
     # reference 1: the same call without scratch
@@ -215,7 +229,10 @@ def requests(c, io):
     shape = c['shape']
     if isinstance(shape, int): shape = [shape, shape]
     scr = inp['scratch']
-    return [{'op': 'c09.propagate_fft',
+    mw = max(c['wl_list']) if c.get('wl_list') else inp['wavelength']
+    return [{'op': 'c09.scratch_shape', 'dx': vlib.fl(inp['pixelscale']), 'du': vlib.fl(c['du']), 'max_wl': vlib.fbits(mw),
+             'z': vlib.fbits(inp['focal_length']), 'os': c['os']},
+            {'op': 'c09.propagate_fft',
              'fields': [{'shape': f['shape'], 'off': f['off'], 're': vlib.fl(f['re']), 'im': vlib.fl(f['im'])} for f in inp['fields']],
              'ntilt': inp['ntilt'], 'wshape': inp['shape'], 'dx': vlib.fl(inp['pixelscale']), 'du': vlib.fl(c['du']),
              'wl': vlib.fbits(inp['wavelength']), 'z': vlib.fbits(inp['focal_length']), 'os': c['os'], 'shape': shape,
@@ -225,7 +242,9 @@ def _c(d): return (np.array(d['re']) + 1j * np.array(d['im'])).reshape(d['shape'
 
 def compare(c, io, mo):
     if c.get('nomodel'): return None
-    m = mo[0]
+    adv = io['in']['advertised_list'] if io['in'].get('advertised_list') is not None else io['in']['advertised']
+    if not mo[0].get('ok') or mo[0]['shape'] != adv: return f"scratch_shape: impl {adv} model {mo[0].get('shape', mo[0].get('err'))}"
+    m = mo[1]
     if 'exc' in io:
         if m.get('ok'): return f"implementation raised {io['exc']} ({io.get('msg')}), model answered"
         return None if m.get('err') == io['exc'] else f"implementation raised {io['exc']}, model {m.get('err')}"
@@ -240,6 +259,7 @@ def compare(c, io, mo):
     if d > P._tol(io): return f'Wavefront.field differs from the model by {d:.3e}'
     ps = vlib.unfl(m['pixelscale'])
     if any(abs(x - y) > 1e-12 * abs(y) for x, y in zip(io['pixelscale'], ps)): return f"output pixelscale {io['pixelscale']} vs model {ps}"
+    if io['focal_length'] != vlib.bitsf(m['focal_length']): return f"output focal length {io['focal_length']!r} vs model {vlib.bitsf(m['focal_length'])!r}"
     return None
 
 # ------------------------------------------------------------------------------------------ oracle (real code only)
@@ -271,6 +291,10 @@ def oracle(c, io):
         if io.get('exc') == want_exc: return None
         what = f"a wavefront whose fields carry {inp['ntilt']} tilt elements" if any(inp['ntilt']) else (f'shape {sh} larger than the grid {S}/os={os_}' if want_exc == 'ValueError' and sh is not None and (sh[0] * os_ > S[0] or sh[1] * os_ > S[1]) else f"scratch {inp['scratch']['shape']} smaller than {S}")
         return f"{what} must be refused with {want_exc}, got {io.get('exc', 'a result')}"
+    if 'exc' in io and c.get('float_os') and io['exc'] == 'TypeError':
+        return (f"float oversample: oversample={c['os']!r} with shape={sh} passes the shape guard (shape*oversample = "
+                f"{None if sh is None else [sh[0] * os_, sh[1] * os_]} <= grid {S}) but the result is neither answered nor refused: "
+                f"{io.get('stage')} raises TypeError ({io.get('msg')})")
     if 'exc' in io:
         scr = inp['scratch']
         return (f"accepted configuration refused: {io['exc']}: {io.get('msg')} (grid {S}, shape {sh}, "
@@ -301,13 +325,15 @@ def oracle(c, io):
     return None
 
 def matches_finding(kf, c, msg):
+    if kf.get('id') == 'KF-C09-float-oversample-explicit-shape':
+        return bool(isinstance(msg, str) and msg.startswith('float oversample:') and c.get('float_os') and c.get('shape') is not None)
     if kf.get('id') != 'KF-C09-fft-anisotropic-wavelength': return False
     if not isinstance(msg, str) or ANISO_MSG not in msg or not msg.startswith('anisotropic dx*du'): return False
     # input class of the finding: the two axes ask for different grids / different alpha
     return c['dx'][0] * c['du'][0] != c['dx'][1] * c['du'][1]
 
 def replay_finding(kf):
-    if kf.get('id') != 'KF-C09-fft-anisotropic-wavelength': return False
+    if kf.get('id') not in ('KF-C09-fft-anisotropic-wavelength', 'KF-C09-float-oversample-explicit-shape'): return False
     c = kf['witness']
     io = impl(c)
     msg = oracle(c, io)
@@ -335,6 +361,7 @@ def tags(c):
     if c.get('wl_list'): t.append('scratch_shape:wavelength-list')
     if c.get('scale'): t.append(f"scale={c['scale']:g}")
     if c.get('near'): t.append('near:' + c['near'])
+    if c.get('float_os'): t.append(f"oversample:float {c['os']}")
     t.append(f"wl={P._wz(c)[0]:.3g}"); t.append(f"z={P._wz(c)[1]:g}")
     return t
 
